@@ -125,6 +125,10 @@ TDropMux ==
   /\ Is("drop_mux")
   /\ st' \in DropMux(st, R.e) /\ UNCHANGED hm
 
+TCancel ==
+  /\ Is("cancel")
+  /\ st' \in CancelCall(st, R.e, R.c) /\ UNCHANGED hm
+
 TDgSend ==
   /\ Is("dg_send")
   /\ LET r == R IN
@@ -268,7 +272,7 @@ TQuiesce ==
   /\ UNCHANGED <<st, hm>>
 
 Next ==
-  \/ TOpen \/ TOpenPoll \/ TAccept \/ TWrite \/ TRead \/ TShutdown \/ TDropS \/ TDropMux
+  \/ TOpen \/ TOpenPoll \/ TAccept \/ TWrite \/ TRead \/ TShutdown \/ TDropS \/ TDropMux \/ TCancel
   \/ TDgSend \/ TDgGet \/ TBind \/ TBindPoll \/ TNextBind \/ TBindReply \/ TBindDrop
   \/ TTask \/ TFault \/ TInject \/ TTake \/ TReset \/ TQuiesce
   \/ TBridgeStart \/ TBridgePoll \/ TBridgeDrop
@@ -301,6 +305,7 @@ ExpStates(s, m, r) ==
     [] r.ev = "shutdown"  -> Shutdown(s, r.e, HH(m, r.e, r.h))
     [] r.ev = "drop"      -> DropStream(s, r.e, HH(m, r.e, r.h))
     [] r.ev = "drop_mux"  -> DropMux(s, r.e)
+    [] r.ev = "cancel"    -> CancelCall(s, r.e, r.c)
     [] r.ev = "dg_send"   -> SendDgram(s, r.e, r.id, r.host, r.port, r.data, r.long)
     [] r.ev = "dg_get"    -> GetDgram(s, r.e)
     [] r.ev = "bind"      -> BindStart(s, r.e, r.c, r.bt, r.host, r.port, LastOr(r.draws, 0))
